@@ -14,6 +14,15 @@ HERE = os.path.dirname(os.path.abspath(__file__))
 VERIF = os.path.dirname(HERE)
 LEAN_DIR = os.path.join(VERIF, "lean")
 REPO = os.environ.get("REPO", "/repo")
+if os.path.realpath(REPO) != os.path.realpath("/repo"):
+    # a scratch tree (mutant trial): use a private copy of the Lean project so that the regenerated
+    # constants of that tree never touch the project the registered commands build
+    _priv = "/tmp/fast_ticc_verif_lean_" + hashlib.sha1(os.path.realpath(REPO).encode()).hexdigest()[:12]
+    subprocess.run(["rsync", "-a", "--delete", LEAN_DIR + "/", _priv + "/"], check=True)
+    LEAN_DIR = _priv
+    OUT_DIR = "/tmp/fast_ticc_verif_out_" + hashlib.sha1(os.path.realpath(REPO).encode()).hexdigest()[:12]
+else:
+    OUT_DIR = VERIF
 ALLOWED_AXIOMS = {"propext", "Classical.choice", "Quot.sound"}
 FORBIDDEN = re.compile(
     r"\bsorry\b|\badmit\b|^\s*axiom\s|native_decide|bv_decide|implemented_by|\bunsafe\s|maxHeartbeats\s+0\b",
@@ -336,7 +345,7 @@ def finish(ctx):
     if lean and not lean.get("ok", True):
         ctx.breaks.insert(0, {"kind": "proof-break", "what": "; ".join(lean.get("failures", [])),
                               "data": {"constants_changed": lean.get("constants_changed")}, "sig": None})
-    os.makedirs(os.path.join(VERIF, "replays"), exist_ok=True)
+    os.makedirs(os.path.join(OUT_DIR, "replays"), exist_ok=True)
     lines = []
     exit_code = 0
     for k in ctx.known_hits:
@@ -367,7 +376,7 @@ def finish(ctx):
 
 def write_replay(ctx, v, i, no_input=False):
     name = f"{ctx.prop}_{ctx.tier}_{ctx.seed}_{i}.json"
-    path = os.path.join(VERIF, "replays", name)
+    path = os.path.join(OUT_DIR, "replays", name)
     doc = {
         "property": ctx.prop, "kind": v["kind"], "theorem_or_relation": v["what"],
         "seed": ctx.seed, "tier": ctx.tier, "input": jsonable(v["data"]),
@@ -378,7 +387,7 @@ def write_replay(ctx, v, i, no_input=False):
     }
     with open(path, "w") as f:
         json.dump(doc, f, indent=1)
-    return os.path.relpath(path, VERIF)
+    return os.path.relpath(path, VERIF) if OUT_DIR == VERIF else path
 
 
 def write_evidence(ctx, exit_code):
@@ -421,6 +430,6 @@ def write_evidence(ctx, exit_code):
         "wall_s": round(ctx.elapsed(), 2),
         "violations": len(ctx.violations) + (1 if (ctx.breaks and not ctx.violations) else 0),
     }
-    os.makedirs(os.path.join(VERIF, "evidence"), exist_ok=True)
-    with open(os.path.join(VERIF, "evidence", f"{ctx.prop}.json"), "w") as f:
+    os.makedirs(os.path.join(OUT_DIR, "evidence"), exist_ok=True)
+    with open(os.path.join(OUT_DIR, "evidence", f"{ctx.prop}.json"), "w") as f:
         json.dump(doc, f, indent=1)
